@@ -37,63 +37,72 @@ fn diag() -> DelaunayRepairDiagnostics {
     }
 }
 
+// Ghost state of this harness is WRITE-ONLY inside the stubs (constant / data stores into
+// distinct statics, all reads happen in the harness).  Reason: with kani 0.68 a read-modify-
+// write of a static inside a stub (a call counter) combined with the clone / drop cycles of
+// the snapshot made CBMC report spurious `__rust_dealloc` failures and silently cut the
+// three-attempt paths (caught by the cover guards; see DESIGN.md 8).
+use core::sync::atomic::AtomicBool;
+static ATT1: AtomicBool = AtomicBool::new(false);
+static ATT2: AtomicBool = AtomicBool::new(false);
+static ATT3: AtomicBool = AtomicBool::new(false);
+static ATT_BAD: AtomicBool = AtomicBool::new(false); // an attempt number outside 1..=3, or attempt k+1 before k
+static USED_K2: AtomicBool = AtomicBool::new(false);
+static USED_K2K3: AtomicBool = AtomicBool::new(false);
+static CERT_VALID: AtomicBool = AtomicBool::new(false); // the last thing that happened is a passing postcondition check
+static ENTRY1: AtomicU64 = AtomicU64::new(0);
+static ENTRY2: AtomicU64 = AtomicU64::new(0);
+static ENTRY3: AtomicU64 = AtomicU64::new(0);
+
 /// CONTRACT of one repair attempt: may perform any flips (havoc the state tag), then returns
-/// Ok(stats), Err(NonConvergent) or any other Err.  Records the attempt number and whether it
-/// started from the pre-repair state (VK_AUX holds the entry tag; bit 60+attempt is cleared if not).
+/// Ok(stats), Err(NonConvergent) or any other Err.
 fn attempt_contract<K, U, V, const D: usize>(
     tds: &mut Tds<K::Scalar, U, V, D>,
-    code: u64,
+    k2: bool,
     config: &RepairAttemptConfig,
 ) -> Result<DelaunayRepairStats, DelaunayRepairError>
 where K: Kernel<D>, U: DataType, V: DataType {
-    vk_event(code);
-    let tag0 = VK_AUX.load(AOrd::Relaxed) as usize;
-    if tag(tds) != tag0 {
-        // remember that an attempt started from a dirty state
-        VK_FAIL.store(VK_FAIL.load(AOrd::Relaxed) | (1 << config.attempt), AOrd::Relaxed);
+    if k2 { USED_K2.store(true, AOrd::Relaxed); } else { USED_K2K3.store(true, AOrd::Relaxed); }
+    CERT_VALID.store(false, AOrd::Relaxed);
+    // write-only: remember the state each attempt started from (compared by the harness)
+    match config.attempt {
+        1 => { ENTRY1.store(tag(tds) as u64, AOrd::Relaxed); ATT1.store(true, AOrd::Relaxed) }
+        2 => { ENTRY2.store(tag(tds) as u64, AOrd::Relaxed); ATT2.store(true, AOrd::Relaxed) }
+        3 => { ENTRY3.store(tag(tds) as u64, AOrd::Relaxed); ATT3.store(true, AOrd::Relaxed) }
+        _ => ATT_BAD.store(true, AOrd::Relaxed),
     }
-    // attempts are numbered 1, 2, 3 in order
-    if config.attempt as u64 != vk_ncalls_attempts() {
-        VK_FAIL.store(VK_FAIL.load(AOrd::Relaxed) | (1 << 8), AOrd::Relaxed);
-    }
-    if kani::any() {
-        set_tag(tds, kani::any()); // any number of flips happened
-    }
+    // "any flips happened": the attempt leaves SOME state of its own making.  Attempt states
+    // live in [2^32, 2^33), the pre-repair state below 2^32, so the harness can tell a state an
+    // attempt produced from the restored snapshot without the stubs reading any ghost state.
+    set_tag(tds, (1usize << 32) + kani::any::<u32>() as usize);
     match kani::any::<u8>() % 3 {
         0 => Ok(DelaunayRepairStats { facets_checked: kani::any(), flips_performed: kani::any(), max_queue_len: kani::any() }),
         1 => Err(DelaunayRepairError::NonConvergent { max_flips: kani::any(), diagnostics: diag() }),
         _ => Err(DelaunayRepairError::Flip(FlipError::UnsupportedDimension { dimension: 77 })),
     }
 }
-static VK_ATTEMPTS: AtomicU64 = AtomicU64::new(0);
-fn vk_ncalls_attempts() -> u64 {
-    let n = VK_ATTEMPTS.load(AOrd::Relaxed) + 1;
-    VK_ATTEMPTS.store(n, AOrd::Relaxed);
-    n
-}
 fn stub_k2_attempt<K, U, V, const D: usize>(
     tds: &mut Tds<K::Scalar, U, V, D>, _kernel: &K, _seed: Option<&[CellKey]>, config: &RepairAttemptConfig,
 ) -> Result<DelaunayRepairStats, DelaunayRepairError>
 where K: Kernel<D>, K::Scalar: ScalarSummable, U: DataType, V: DataType {
-    attempt_contract::<K, U, V, D>(tds, E_K2, config)
+    attempt_contract::<K, U, V, D>(tds, true, config)
 }
 fn stub_k2k3_attempt<K, U, V, const D: usize>(
     tds: &mut Tds<K::Scalar, U, V, D>, _kernel: &K, _seed: Option<&[CellKey]>, config: &RepairAttemptConfig,
 ) -> Result<DelaunayRepairStats, DelaunayRepairError>
 where K: Kernel<D>, K::Scalar: ScalarSummable, U: DataType, V: DataType {
-    attempt_contract::<K, U, V, D>(tds, E_K2K3, config)
+    attempt_contract::<K, U, V, D>(tds, false, config)
 }
-/// CONTRACT of the postcondition verifier: pure, any verdict; remembers the tag it certified.
+/// CONTRACT of the postcondition verifier: pure, any verdict; remembers the state it certified.
 fn stub_verify<K, U, V, const D: usize>(
     tds: &Tds<K::Scalar, U, V, D>, _kernel: &K, _seed: Option<&[CellKey]>,
 ) -> Result<(), DelaunayRepairError>
 where K: Kernel<D>, K::Scalar: ScalarSummable, U: DataType, V: DataType {
     if kani::any() {
-        vk_event(E_VOK);
-        VK_NCELLS.store(tag(tds), AOrd::Relaxed); // the state that was certified
+        CERT_VALID.store(true, AOrd::Relaxed);
         Ok(())
     } else {
-        vk_event(E_VERR);
+        CERT_VALID.store(false, AOrd::Relaxed);
         Err(DelaunayRepairError::Flip(FlipError::UnsupportedDimension { dimension: 78 }))
     }
 }
@@ -104,7 +113,7 @@ fn stub_trace() -> bool {
 macro_rules! repair_protocol_instance {
     ($name:ident, $d:expr) => {
         #[kani::proof]
-        #[kani::unwind(2)]
+        #[kani::unwind(3)]
         #[kani::stub(repair_delaunay_with_flips_k2_attempt, stub_k2_attempt)]
         #[kani::stub(repair_delaunay_with_flips_k2_k3_attempt, stub_k2k3_attempt)]
         #[kani::stub(verify_repair_postcondition, stub_verify)]
@@ -113,40 +122,44 @@ macro_rules! repair_protocol_instance {
             const D: usize = $d;
             let mut tds: Tds<f64, (), (), D> = Tds::empty();
             let tag0: usize = kani::any();
-            kani::assume(tag0 != usize::MAX);
+            kani::assume(tag0 < (1usize << 32));
             set_tag(&mut tds, tag0);
-            vk_reset(0, 0);
-            VK_ATTEMPTS.store(0, AOrd::Relaxed);
-            VK_AUX.store(tag0 as u64, AOrd::Relaxed);
+            ATT1.store(false, AOrd::Relaxed);
+            ATT2.store(false, AOrd::Relaxed);
+            ATT3.store(false, AOrd::Relaxed);
+            ATT_BAD.store(false, AOrd::Relaxed);
+            USED_K2.store(false, AOrd::Relaxed);
+            USED_K2K3.store(false, AOrd::Relaxed);
+            CERT_VALID.store(false, AOrd::Relaxed);
             let kernel = FastKernel::<f64>::new();
             let topo = TopologyGuarantee::PLManifold;
             let r = repair_delaunay_with_flips_k2_k3(&mut tds, &kernel, None, topo);
-            let log = vk_log();
-            let flags = VK_FAIL.load(AOrd::Relaxed);
-            let attempts = VK_ATTEMPTS.load(AOrd::Relaxed);
+            let (a1, a2, a3) = (ATT1.load(AOrd::Relaxed), ATT2.load(AOrd::Relaxed), ATT3.load(AOrd::Relaxed));
             if D < 2 {
-                assert!(r.is_err() && vk_ncalls() == 0 && tag(&tds) == tag0, "OBL low-dim: D < 2 => Err, no attempt, unchanged");
+                assert!(r.is_err() && !a1 && !a2 && !a3 && tag(&tds) == tag0, "OBL low-dim: D < 2 => Err, no attempt, unchanged");
             } else {
-                assert!(attempts >= 1 && attempts <= 3, "OBL three-attempts: at least one and at most three attempts");
-                assert!(flags & (1 << 8) == 0, "OBL attempt-order: attempts are configured 1, 2, 3 in order");
-                assert!(flags & 0b1110 == 0, "OBL clean-start: every attempt starts from the pre-repair state (snapshot restored before a retry)");
-                let uses = if D == 2 { E_K2 } else { E_K2K3 };
-                let other = if D == 2 { E_K2K3 } else { E_K2 };
-                assert!(!vk_called(other) && vk_called(uses), "OBL engine-by-dim: D == 2 uses the k=2 engine, D >= 3 the k=2/k=3 engine");
+                assert!(a1, "OBL three-attempts: at least one and at most three attempts (numbered 1..=3)");
+                assert!(!ATT_BAD.load(AOrd::Relaxed) && (!a3 || a2) && (!a2 || a1), "OBL attempt-order: attempts are configured 1, 2, 3 in order");
+                let t0 = tag0 as u64;
+                assert!(ENTRY1.load(AOrd::Relaxed) == t0 && (!a2 || ENTRY2.load(AOrd::Relaxed) == t0) && (!a3 || ENTRY3.load(AOrd::Relaxed) == t0),
+                    "OBL clean-start: every attempt starts from the pre-repair state (snapshot restored before a retry)");
+                let (uses, other) = if D == 2 { (&USED_K2, &USED_K2K3) } else { (&USED_K2K3, &USED_K2) };
+                assert!(uses.load(AOrd::Relaxed) && !other.load(AOrd::Relaxed), "OBL engine-by-dim: D == 2 uses the k=2 engine, D >= 3 the k=2/k=3 engine");
                 match &r {
                     Ok(_) => {
-                        assert!((log & 0xf) == E_VOK, "OBL ok-certified: Ok only if the LAST thing that happened is a passing postcondition check");
-                        assert!(VK_NCELLS.load(AOrd::Relaxed) == tag(&tds), "OBL ok-certified-state: the state returned is the state that was certified");
+                        assert!(CERT_VALID.load(AOrd::Relaxed), "OBL ok-certified: Ok only if the LAST thing that happened is a passing postcondition check");
+                        assert!(tag(&tds) >= (1usize << 32), "OBL ok-certified-state: the state returned is the one the last attempt produced and the check certified (not a restored snapshot)");
                     }
                     Err(_) => {
                         assert!(tag(&tds) == tag0, "OBL err-unchanged: Err => the triangulation is exactly the pre-repair state");
                     }
                 }
             }
-            kani::cover!(r.is_ok() && attempts == 1, "COV ok after one attempt");
-            kani::cover!(r.is_ok() && attempts == 3, "COV ok after three attempts");
-            kani::cover!(r.is_err() && attempts == 3, "COV err after three attempts");
-            kani::cover!(r.is_err() && attempts == 1, "COV err after one attempt");
+            kani::cover!(r.is_ok() && a1 && !a2, "COV ok after one attempt");
+            kani::cover!(r.is_ok() && a3, "COV ok after three attempts");
+            kani::cover!(r.is_err() && a3, "COV err after three attempts");
+            kani::cover!(r.is_err() && a1 && !a2, "COV err after one attempt");
+            kani::cover!(r.is_err() && a2 && !a3, "COV err after two attempts");
             core::mem::forget(r);
             core::mem::forget(tds);
         }
@@ -155,3 +168,91 @@ macro_rules! repair_protocol_instance {
 repair_protocol_instance!(repair_protocol_d2, 2);
 repair_protocol_instance!(repair_protocol_d3, 3);
 repair_protocol_instance!(repair_protocol_d1, 1);
+
+// =========================================================================================
+// C03: apply_bistellar_flip_k1 (Edit-API vertex insertion) - Err leaves no vertex behind
+// =========================================================================================
+use crate::core::triangulation_data_structure::{TdsConstructionError, TdsMutationError};
+use crate::core::vertex::Vertex;
+use crate::geometry::point::Point;
+use crate::geometry::traits::coordinate::Coordinate as _;
+use slotmap::KeyData;
+
+const E_INS: u64 = 5; // Tds::insert_vertex_with_mapping
+const E_CTX: u64 = 6; // build_k1_forward_context_from_cell
+const E_FLIP: u64 = 7; // apply_bistellar_flip
+const E_RMV: u64 = 8; // Tds::remove_vertex
+const TAG_WITH_VERTEX: usize = 0x7777_0001;
+
+/// CONTRACT: Ok(key) => exactly the new isolated vertex was added (state tag0 -> TAG_WITH_VERTEX); Err => unchanged
+fn stub_insert_vertex<T, U, V, const D: usize>(t: &mut Tds<T, U, V, D>, _v: Vertex<T, U, D>) -> Result<VertexKey, TdsConstructionError>
+where U: DataType, V: DataType {
+    vk_event(E_INS);
+    // (the duplicate-UUID Err path is not exercised: the caller formats the error with
+    //  Display, which does not fit in CBMC; on that path nothing has been inserted yet)
+    set_tag(t, TAG_WITH_VERTEX);
+    Ok(VertexKey::from(KeyData::from_ffi(0x1_0000_0009)))
+}
+fn stub_k1_context<T, U, V, const D: usize>(_t: &Tds<T, U, V, D>, _c: CellKey, _v: VertexKey) -> Result<FlipContext<D, 1>, FlipError>
+where T: CoordinateScalar, U: DataType, V: DataType {
+    vk_event(E_CTX);
+    if vk_fails(E_CTX) {
+        Err(FlipError::MissingCell { cell_key: CellKey::from(KeyData::from_ffi(0x1_0000_0001)) })
+    } else {
+        Ok(FlipContext { removed_face_vertices: SmallBuffer::new(), inserted_face_vertices: SmallBuffer::new(), removed_cells: CellKeyBuffer::new(), direction: FlipDirection::Forward })
+    }
+}
+/// CONTRACT (assumed): Ok => cells changed (any); Err => the complex is as it was at entry
+fn stub_apply_flip<K, U, V, const D: usize, const K_MOVE: usize>(t: &mut Tds<K::Scalar, U, V, D>, _k: &K, _c: &FlipContext<D, K_MOVE>) -> Result<FlipInfo<D>, FlipError>
+where K: Kernel<D>, K::Scalar: CoordinateScalar, U: DataType, V: DataType {
+    vk_event(E_FLIP);
+    if vk_fails(E_FLIP) {
+        Err(FlipError::UnsupportedDimension { dimension: 6 })
+    } else {
+        set_tag(t, kani::any());
+        Ok(FlipInfo { kind: BistellarFlipKind::k1(D), direction: FlipDirection::Forward, removed_cells: CellKeyBuffer::new(), new_cells: CellKeyBuffer::new(),
+                      removed_face_vertices: SmallBuffer::new(), inserted_face_vertices: SmallBuffer::new() })
+    }
+}
+fn stub_get_vertex<T, U, V, const D: usize>(t: &Tds<T, U, V, D>, _v: VertexKey) -> Option<&'static Vertex<T, U, D>>
+where T: CoordinateScalar, U: DataType, V: DataType {
+    if tag(t) == TAG_WITH_VERTEX { Some(Box::leak(Box::new(Vertex::empty()))) } else { None }
+}
+/// CONTRACT: removing the freshly inserted isolated vertex gives back the entry state
+fn stub_remove_vertex<T, U, V, const D: usize>(t: &mut Tds<T, U, V, D>, _v: &Vertex<T, U, D>) -> Result<usize, TdsMutationError>
+where U: DataType, V: DataType {
+    vk_event(E_RMV);
+    if tag(t) == TAG_WITH_VERTEX {
+        set_tag(t, VK_AUX.load(AOrd::Relaxed) as usize);
+    }
+    Ok(0)
+}
+
+#[kani::proof]
+#[kani::unwind(4)]
+#[kani::stub(Tds::insert_vertex_with_mapping, stub_insert_vertex)]
+#[kani::stub(build_k1_forward_context_from_cell, stub_k1_context)]
+#[kani::stub(apply_bistellar_flip, stub_apply_flip)]
+#[kani::stub(Tds::get_vertex_by_key, stub_get_vertex)]
+#[kani::stub(Tds::remove_vertex, stub_remove_vertex)]
+fn flip_k1_insert_rollback_contract() {
+    let mut tds: Tds<f64, (), (), 2> = Tds::empty();
+    let tag0: usize = kani::any();
+    kani::assume(tag0 != usize::MAX && tag0 != TAG_WITH_VERTEX);
+    set_tag(&mut tds, tag0);
+    let fail: u64 = kani::any();
+    vk_reset(fail, 0);
+    VK_AUX.store(tag0 as u64, AOrd::Relaxed);
+    let kernel = FastKernel::<f64>::new();
+    let v: Vertex<f64, (), 2> = Vertex::new_with_uuid(Point::new([0.5, 0.5]), uuid::Uuid::nil(), None);
+    let r = apply_bistellar_flip_k1(&mut tds, &kernel, CellKey::from(KeyData::from_ffi(0x1_0000_0001)), v);
+    match &r {
+        Ok(_) => assert!(vk_called(E_INS) && vk_called(E_CTX) && vk_called(E_FLIP), "OBL ok-path: Ok only after vertex insertion, context construction and the flip all succeeded"),
+        Err(_) => assert!(tag(&tds) == tag0, "OBL err-no-vertex-left: Err (duplicate UUID, missing cell, failed flip) => the triangulation is as before, in particular the new vertex is gone"),
+    }
+    kani::cover!(r.is_err() && vk_called(E_CTX) && !vk_called(E_FLIP), "COV context construction fails");
+    kani::cover!(r.is_err() && vk_called(E_FLIP), "COV flip fails");
+    kani::cover!(r.is_ok(), "COV ok");
+    core::mem::forget(r);
+    core::mem::forget(tds);
+}
